@@ -9,6 +9,8 @@ package serverless
 //@ func FeedLog
 //@   returns (err)
 //@   requires w != nil && l.Verifier != nil
+//@   // configuration: newFetcher panics at start-up on any other scheme
+//@   requires urlScheme(l.URL) == "http" || urlScheme(l.URL) == "https" || urlScheme(l.URL) == "file"
 //@   modifies heap
 //@   ghostmodifies n_fo, fo_id, fo_origin, fo_v, fo_w
 //@   ensures[C12.feed] n_fo <= old(n_fo) + 1
